@@ -6,6 +6,7 @@ CONSTANTS
   MaxUid = 1
   MaxCode = 1
   NFlagSets = 2
+  SyncLit = FALSE
   Kinds = {"NOOP", "LOGIN", "SELECT", "UNSELECT", "STATUS", "LIST", "SEARCH", "ESEARCH", "FETCH", "EXPUNGE", "LOGOUT"}
   Greetings = {"OK"}
   SimDepth = 0
